@@ -729,6 +729,7 @@ func c17(x *mon.Ctx) {
 			x.Sample(map[string]any{"history": names, "pre_existing_entries": h.Pre, "accepted_requests": res.accepted, "tsm_operations_logged": res.ops})
 		}
 	})
+	extendToolRuns(x)
 	x.Require("history-with-faulty-lookup", 8, 40, nenv)
 	x.Require("history-len-1", 20, 300, 600)
 	x.Require("history-len-2", 100, 100, 900)
